@@ -1818,6 +1818,13 @@ ASSUMPTIONS = [
     "BulkCopyFailed",
     "the Coq model (Fault/MoveFault.v) writes through to the destination (MemoryFS semantics); the "
     "buffered OSFS behaviour is covered by the harness only",
+    "FS URLs: only URLs of a temp directory (osfs://<dir>, <dir>, osfs://<dir>/) can stand for a populated "
+    "storage; fs.opener.open_fs ignores a '!sub/path' suffix, so there is no sub-path URL form to drive; the "
+    "filesystem objects the library opens for a URL are instrumented in the native style only (by root "
+    "directory), opening and closing them are not fault points",
+    "real failures (real_failure_sweep): obstacles that fail for any user id (directory in the way of a file, "
+    "file in the way of a directory, missing or non-directory parent); permission based obstacles are not used "
+    "because the check may run as root",
 ]
 
 
@@ -1938,7 +1945,8 @@ def replay(report, path):
             res = run_once(case, tmpbase, target, kind, prefix)
             viols = [v for v in judge(case, res, kind.split("-")[0]) if v[0] == d["kind"]]
             if attempt == 0 or viols:
-                print("function  :", case["function"], case["style"], case["backends"], json.dumps(case["args"]))
+                print("function  :", case["function"], case["style"], case["backends"], json.dumps(case["args"]),
+                      ("url=%s (%s)" % (case["url"], case.get("url_form"))) if case.get("url") else "")
                 print("fault     : step %s (%s) %s" % (d["fault_step"], d["primitive"], fkind))
                 print("primitives:", " | ".join(key_str(k) for k in res["trace"]))
                 print("outcome   :", res["outcome"], res["error"] or "")
